@@ -426,6 +426,7 @@ func gvcModLoc(p any) {}
 func gvcModGhost(obj any, name string) {}
 func gvcModFlag(name string) {}
 func gvcModMap(m any) {}
+func gvcModElems(s any) {}
 func gvcModGlob(name string) {}
 func fsContent(path string) string { return "" }
 func fsExists(path string) bool { return false }
@@ -555,6 +556,8 @@ func (cf *ContractFile) stub() string {
 					stmts = append(stmts, "gvcModGlob("+strings.TrimPrefix(it, "glob("))
 				case strings.HasPrefix(it, "mapof("):
 					stmts = append(stmts, "gvcModMap("+strings.TrimPrefix(it, "mapof("))
+				case strings.HasPrefix(it, "elems("):
+					stmts = append(stmts, "gvcModElems("+strings.TrimPrefix(it, "elems("))
 				default:
 					stmts = append(stmts, "gvcModLoc("+it+")")
 				}
@@ -663,7 +666,7 @@ func splitTop(s string) []string {
 var ghostNames = map[string]bool{
 	"old": true, "implies": true, "iff": true, "fresh": true, "allocated": true, "forall": true, "exists": true,
 	"ghostStr": true, "ghostInt": true, "ghostBool": true, "ghostAny": true, "ghostFlag": true, "globStr": true, "globInt": true,
-	"gvcModLoc": true, "gvcModGhost": true, "gvcModFlag": true, "gvcModMap": true, "gvcModGlob": true,
+	"gvcModLoc": true, "gvcModGhost": true, "gvcModFlag": true, "gvcModMap": true, "gvcModGlob": true, "gvcModElems": true,
 	"fsContent": true, "fsExists": true, "fsReadable": true, "fsIsDir": true, "fsMode": true, "fsSize": true, "fsMTime": true,
 	"fsLink": true, "fsIsLink": true, "ufStr": true, "ufInt": true, "ufBool": true,
 	"errIs": true, "errAsSigningFailure": true, "errMsg": true, "mapHas": true, "bit": true, "isNilFunc": true, "dynType": true, "mergoOverride": true, "deepEq": true, "forallKeys": true, "forallStr": true, "globErr": true, "readerContent": true, "callStr": true, "callStrs": true, "renderedRange": true, "inlined": true, "foldStr": true, "foldInt": true, "lastBytes": true, "lastStr": true, "lastTime": true, "eachStr": true,
@@ -764,8 +767,11 @@ func (e *Engine) ghostCall(c *CallCtx, g string, fn *ssa.Function) *Term {
 	case "inlined":
 		// true when the function this clause belongs to is being executed inside a caller
 		f := c.fr
-		for f != nil && f.clause {
+		for f != nil && f.clause && f.caller != nil {
 			f = f.caller
+		}
+		if f != nil && f.clause {
+			f = f.owner // the frame of the function the clause belongs to
 		}
 		return BoolT(f != nil && f.caller != nil)
 	case "foldStr", "foldInt":
@@ -846,6 +852,17 @@ func (e *Engine) ghostCall(c *CallCtx, g string, fn *ssa.Function) *Term {
 		u := DeclUF("fold:"+cl.fn.String()+":"+strings.Join(names, ","), res, append(sorts, IntS)...)
 		F := func(k *Term) *Term { return App(u, append(append([]*Term{}, args...), k)...) }
 		fn := F(n)
+		// n == m+1 >= 1 for an index m asked for before (the loop head): the
+		// definition is unfolded once, so that the step reads F(m) ++ f(m)
+		if nb, _ := linForm(n); nb != nil && KnownGe(n, IntT(1)) {
+			prev := Sub(n, IntT(1))
+			if e.pureSeen[F(prev).id] {
+				if g == "foldInt" {
+					return Add(F(prev), elem(prev))
+				}
+				return Concat(F(prev), elem(prev))
+			}
+		}
 		if !e.pureSeen[fn.id] {
 			e.pureSeen[fn.id] = true
 			e.axiom(Implies(Le(n, IntT(0)), Eq(fn, unit)))
@@ -874,7 +891,7 @@ func (e *Engine) ghostCall(c *CallCtx, g string, fn *ssa.Function) *Term {
 		return e.globGet(st, e.constStr(c.args[0]), StringS)
 	case "globInt":
 		return e.globGet(st, e.constStr(c.args[0]), IntS)
-	case "gvcModLoc", "gvcModGhost", "gvcModFlag", "gvcModMap", "gvcModGlob":
+	case "gvcModLoc", "gvcModGhost", "gvcModFlag", "gvcModMap", "gvcModGlob", "gvcModElems":
 		if e.modCollect != nil {
 			e.collectMod(c, g)
 		}
@@ -1102,7 +1119,7 @@ func (e *Engine) clauseFn(cl *Clause) *ssa.Function {
 func (e *Engine) evalClause(fr *Frame, cl *Clause, args, extra []*Term, st, oldSt *State, pc *Term) *Term {
 	fn := e.clauseFn(cl)
 	all := append(append([]*Term{}, args...), extra...)
-	root := &Frame{clause: true, oldSt: nil, caller: nil}
+	root := &Frame{clause: true, oldSt: nil, caller: nil, owner: fr}
 	if cl.Kind == "invariant" {
 		// in loop invariants, fresh(x) means: allocated since the entry of the
 		// function under verification (not of an inlined callee)
@@ -1155,6 +1172,15 @@ func (e *Engine) collectMod(c *CallCtx, g string) {
 		tag := IfaceTag(iv)
 		T := e.tr.typeOfTag(int(tag.IVal.Int64()))
 		*e.modCollect = append(*e.modCollect, modTarget{kind: "map", loc: e.payloadTerm(iv), t: T})
+	case "gvcModElems":
+		// every element of the backing array of a slice
+		iv := c.args[0]
+		tag := IfaceTag(iv)
+		if tag.Op != "int" {
+			panic("modifies elems(): slice type unknown")
+		}
+		T := e.tr.typeOfTag(int(tag.IVal.Int64()))
+		*e.modCollect = append(*e.modCollect, modTarget{kind: "elems", loc: SliceBase(e.payloadTerm(iv)), t: T})
 	}
 }
 
@@ -1314,6 +1340,24 @@ func (e *Engine) assumeInvariants(fr *Frame, li *loopInfo, ls *LoopSpec, st *Sta
 	for _, cl := range ls.Invs {
 		g := e.evalClause(fr, cl, e.frameArgs(fr), lv, st, fr.entrySt, pc)
 		e.assume(pc, g)
+		// an invariant of the form  <havocked ghost cell> == <term>  determines
+		// that cell at the loop head: later reads see the term itself
+		for _, cj := range conj(g) {
+			if cj.Op != "=" || len(cj.Args) != 2 {
+				continue
+			}
+			for k := 0; k < 2; k++ {
+				l, r := cj.Args[k], cj.Args[1-k]
+				if l.Op != "select" || l.Args[0].Op != "sym" || !strings.HasPrefix(l.Args[0].SVal, "hv:X:") || containsTerm(r, l.Args[0]) {
+					continue
+				}
+				for name, v := range st.comps {
+					if v == l.Args[0] {
+						st.comps[name] = Store(v, l.Args[1], r)
+					}
+				}
+			}
+		}
 	}
 }
 
